@@ -15,3 +15,6 @@ pub mod f5 {
 pub mod f2 {
     include!("f2_realloc.rs");
 }
+pub mod f4 {
+    include!("f4_decide.rs");
+}
